@@ -223,7 +223,8 @@ def judge(spec, results):
             if a in ix and b in ix:
                 oa, ob = ref.op(ix[a]), ref.op(ix[b])
                 if oa and ob:
-                    va = sorted(oa.out.values()); vb = sorted(ob.out.values())
+                    va = sorted(plans._mask_log_time(v) if k in ('stdout', 'stderr') else v for k, v in oa.out.items())
+                    vb = sorted(plans._mask_log_time(v) if k in ('stdout', 'stderr') else v for k, v in ob.out.items())
                     if va != vb or oa.rc != ob.rc:
                         add('C02', 'C02_REPEAT_DIFFERS', 'repeating the run on the same object gives a different result', 'ref')
     # every simulated schedule against the reference
